@@ -106,6 +106,8 @@ pub fn c05_instances(tier: Tier) -> Vec<Instance> {
                 i.chunks = if total <= 48 { Chunks::All } else { Chunks::Boundary };
                 i.fail_budget = if thorough { 2 } else { 1 };
                 i.fail_kinds = if total <= 16 { vec![0, 1, 2, 3] } else { vec![0, 3] };
+                // the clock is an input of the async read (90 s timeout): 30 s steps, never 90 s in a row
+                i.tick_budget = if imp == Impl::Tokio && (seq.len() <= 2 || thorough) { 1 } else { 0 };
                 out.push(i);
             }
         }
@@ -169,7 +171,8 @@ pub fn c06_instances(tier: Tier) -> Vec<Instance> {
                 i.program = Program::Writes(ps.clone());
                 i.script_writes = true;
                 i.allow_eof = false;
-                i.pending_budget = if imp == Impl::Tokio { 2 } else { 0 };
+                i.pending_budget = 2; // tokio: Pending; blocking: Interrupted
+                i.tick_budget = if imp == Impl::Tokio { 2 } else { 0 };
                 out.push(i);
             }
         }
@@ -240,7 +243,8 @@ pub fn c07_instances(tier: Tier) -> Vec<Instance> {
                     j.chunks = Chunks::Boundary;
                     j.script_writes = true;
                     j.allow_eof = false;
-                    j.pending_budget = if imp == Impl::Tokio { 1 } else { 0 };
+                    j.pending_budget = 1;
+                    j.tick_budget = if imp == Impl::Tokio { 1 } else { 0 };
                     out.push(j);
                 }
             }
@@ -413,8 +417,23 @@ pub fn c19_instances(tier: Tier) -> Vec<Instance> {
             i.allow_eof = true;
             i.cancel_budget = if tier == Tier::Thorough { 4 } else { 2 };
             i.pending_budget = 1;
+            i.tick_budget = if seq.len() <= 2 || tier == Tier::Thorough { 2 } else { 0 };
             out.push(i);
         }
+        // the same drops late in a long session: the spare capacity of the receive buffer shrinks to
+        // 0 and the allocation is reclaimed; a drop may fall on any of those states
+        let long: Vec<Vec<u8>> = if c {
+            let n = if tier == Tier::Thorough { 16 } else { 9 };
+            (0..n).map(|i| if i % 2 == 0 { f_big(c, 1020, 200) } else { f_mci(c, 36) }).collect()
+        } else {
+            let n = if tier == Tier::Thorough { 64 } else { 30 };
+            (0..n).map(|i| if i % 3 == 0 { f_big(c, 252, 200) } else if i % 3 == 1 { f_mci(c, 8) } else { f_keepalive(c) }).collect()
+        };
+        let mut i = Instance::new(&format!("cancel-long#{cname}#tokio"), Impl::Tokio, c, long);
+        i.chunks = Chunks::Boundary;
+        i.allow_eof = false;
+        i.cancel_budget = if tier == Tier::Thorough { 2 } else { 1 };
+        out.push(i);
         // the caller gives up on a read (select! against a timer) and WRITES before reading again:
         // the packet must not be interleaved with a half sent keep-alive reply
         let user = Packet::Tiny(Tiny { reqi: RequestId(9), subt: TinyType::Ping });
